@@ -25,6 +25,24 @@ TEXT = {
             "GMP string parsing/printing is trusted as the reference for radix conversion"),
 }
 
+TEXT.update({
+    "C02": ("vecops", "per-lane differential oracle under each kernel's documented operand assumption, lane rotation, path classifier",
+            "All 16 AVX2 lane kernels executed with every lane carrying a different boundary-directed pair, constrained to exactly the documented "
+            "precondition; results compared per lane with the scalar oracle (prod and ASan/UBSan builds). Held on executed lane inputs only.",
+            "u128 oracle; preconditions taken from the header comments (never stricter)"),
+    "C11": ("vecops", "per-lane differential oracle (8 lanes) on the AVX-512 build the shipped tests never compile",
+            "Same monitor as C02 for the 13 AVX-512 kernels, built with -mavx512f -D__AVX512__ and executed on this CPU's AVX-512F.",
+            "u128 oracle; requires an AVX-512F CPU (otherwise inconclusive); valgrind cannot run AVX-512 so memory side is ASan only"),
+    "C13": ("vecops", "integer matrix-vector oracle, band-directed operands (lane products constructed to land in [p,2^64))",
+            "dot/spmv/mmult AVX2 kernels (aligned, unaligned at offsets 0..3, 8-bit variants) compared with the matrix oracle on five operand "
+            "families; the number of non-canonical intermediate products actually produced is measured by probing the lane kernels.",
+            "u128 oracle; documented layouts (row-major 12x12, block-diagonal 4x12)"),
+    "C14": ("vecops", "integer matrix-vector oracle per interleaved state, band-directed operands, AVX-512 build",
+            "Same monitor as C13 for the AVX-512 two-state kernels; found the non-canonical-addend defect (F1) on the pinned tree, fixed in "
+            "/repo commit 3bd4259; the families that expose it stay in the workload.",
+            "u128 oracle; requires AVX-512F"),
+})
+
 NOT_YET = "check not built yet in this revision of /verif (planned, see DESIGN.md section 3)"
 
 
